@@ -305,3 +305,58 @@ def dotted_name(e: ast.AST) -> str:
         parts.append(e.id)
         return ".".join(reversed(parts))
     return ""
+
+
+INPLACE_CONTAINER_METHODS = {"update", "difference_update", "intersection_update", "symmetric_difference_update", "add", "discard", "remove", "pop", "clear", "append", "extend",
+                             "insert", "sort", "reverse", "fill", "put", "resize", "setdefault", "popitem", "itemset"}
+
+
+def cached_result_mutations(ctx, fi):
+    """In function fi: in-place mutations (augmented assignment, subscript store, mutating method, out=) of a
+    value that is the result of an internal function decorated with functools.lru_cache / cache.  The cached
+    object is shared by every later caller with the same arguments, so the mutation persists across calls."""
+    from .dataflow import flow_of as _flow
+
+    cached = {}
+    for f in ctx.prog.functions.values():
+        for d in f.node.decorator_list:
+            if dotted_name(d.func if isinstance(d, ast.Call) else d).split(".")[-1] in ("lru_cache", "cache", "cached_property"):
+                cached[f.qualname] = f
+    if not cached:
+        return []
+    flow = _flow(fi.node)
+    names = {}
+    for nid, ds in flow.defs_at.items():
+        for d in ds:
+            if d.kind == "assign" and isinstance(d.value, ast.Call) and not d.path:
+                for t in ctx.res.call_targets(fi, d.value):
+                    if getattr(t, "qualname", None) in cached:
+                        names.setdefault(d.name, []).append((d, t))
+    out = []
+    if not names:
+        return out
+    for x in ast.walk(fi.node):
+        nm = None
+        if isinstance(x, ast.AugAssign):
+            b = x.target
+            while isinstance(b, ast.Subscript):
+                b = b.value
+            nm = b.id if isinstance(b, ast.Name) else None
+        elif isinstance(x, ast.Assign):
+            for t in x.targets:
+                if isinstance(t, ast.Subscript):
+                    b = t
+                    while isinstance(b, ast.Subscript):
+                        b = b.value
+                    nm = b.id if isinstance(b, ast.Name) else nm
+        elif isinstance(x, ast.Call) and isinstance(x.func, ast.Attribute) and isinstance(x.func.value, ast.Name) and x.func.attr in INPLACE_CONTAINER_METHODS:
+            nm = x.func.value.id
+        elif isinstance(x, ast.Call):
+            for k in x.keywords:
+                if k.arg == "out" and isinstance(k.value, ast.Name):
+                    nm = k.value.id
+        if nm in names:
+            at = flow.node_containing(x)
+            if at is not None and any(d is dd for dd in flow.reaching(at, nm) for (d, _) in names[nm]):
+                out.append((x, names[nm][0][1]))
+    return out
